@@ -590,6 +590,15 @@ impl Run {
                 self.step(&json!({"act":"close","by":"a3","args":{"id":p["id"],"drain":true}}), out);
             }
         }
+        // aftermath: a finished proposal stays finished — late ballots, a second Execute and a second Close must
+        // all be refused and move no money (at most three proposals, to keep the traces short)
+        for p in obs["props"].as_array().unwrap().iter().take(3) {
+            for u in USERS {
+                self.step(&json!({"act":"vote","by":u,"args":{"id":p["id"],"vote":"yes","drain":true}}), out);
+            }
+            self.step(&json!({"act":"execute","by":"a1","args":{"id":p["id"],"drain":true}}), out);
+            self.step(&json!({"act":"close","by":"a2","args":{"id":p["id"],"drain":true}}), out);
+        }
     }
 }
 
